@@ -485,6 +485,12 @@ class Splicer:
         info = dict(file=f, path=r['path'], contracted=fc is not None, external_body=False, external=False,
                     tags=sorted(tags), explicit_tags=explicit, line=data[:r['item'][0]].count(b'\n') + 1)
         self.g.functions.append(info)
+        if fc is None and f in getattr(u, 'tables_only_files', ()):
+            # a file of which the unit needs only the const tables: functions the contracts do not name are left out
+            dele(r['item'][0], r['item'][1], 'R9')
+            self.g.dropped.append('%s (function dropped: only the tables of this file belong to the unit)' % fnkey)
+            info['dropped'] = True
+            return
         nf = self.newfns.get(f, {}).get((r['qual'], r['name']))
         if nf is not None and nf[0] is r:
             if nf[1]:
